@@ -48,6 +48,15 @@ func (p *Program) Globals() *GlobalModel {
 		ps := NewPathSim(p)
 		ps.trackGlobals = true
 		ps.maxPaths = 64
+		// a variable initialised with the result of a constructor of function values (a generic comparator builder, …):
+		// the constructor is interpreted so that the closure it returns is known
+		ps.Inline = func(c *ssa.Function) bool {
+			if !p.InModule(c) || c.Signature.Results().Len() != 1 {
+				return false
+			}
+			_, isFn := c.Signature.Results().At(0).Type().Underlying().(*types.Signature)
+			return isFn
+		}
 		// keep the accumulated state of the previous package
 		prev := gm.st
 		ps.Seed = func(st *pstate) {
